@@ -1,0 +1,20 @@
+//go:build verif
+
+package plugin
+
+import "github.com/cloudwego/thriftgo/parser"
+
+// Exports for the verification harness: include compression is only switched
+// on for plugins whose build info reports a released thriftgo version, which a
+// locally built plugin cannot report, so the in-process check calls these.
+
+func VerifCompressThriftInclude(ast *parser.Thrift)   { compressThriftInclude(ast, nil) }
+func VerifDecompressThriftInclude(ast *parser.Thrift) { decompressThriftInclude(ast, nil) }
+func VerifAppendDataTrailer(data []byte, feature uint8) []byte {
+	return appendDataTrailer(data, feature)
+}
+func VerifHasDataTrailerFeature(data []byte, feature uint8) bool {
+	return hasDataTrailerFeature(data, feature)
+}
+
+const VerifFeatureCompressInclude = featureCompressInclude
